@@ -407,7 +407,10 @@ func (a *sparseArrayObject) _deleteIdxProp(idx uint32, throw bool) bool {
 	if i < len(a.items) && a.items[i].idx == idx {
 		if p, ok := a.items[i].value.(*valueProperty); ok {
 			if !p.configurable {
-				a.val.runtime.typeErrorResult(throw, "Cannot delete property '%d' of %s", idx, a.val.toString())
+				if throw {
+					// the message is only built when it is needed: stringifying the object runs user code
+					a.val.runtime.typeErrorResult(true, "Cannot delete property '%d' of %s", idx, a.val.toString())
+				}
 				return false
 			}
 			a.propValueCount--
